@@ -775,6 +775,12 @@ func EnvStep(s *Store, sc *CycleScript, cycle int, rec *CycleRecord) {
 			pod.Spec.NodeName = br.Spec.SelectedNode
 			pod.Status.Phase = v1.PodRunning
 			if len(br.Spec.SelectedGPUGroups) > 0 {
+				// the binder first detaches the pod from groups an abandoned earlier attempt left on it
+				for k := range pod.Labels {
+					if k == GPUGroupLabel || strings.HasPrefix(k, GPUGroupLabel+"/") {
+						delete(pod.Labels, k)
+					}
+				}
 				SetGroupLabels(pod, br.Spec.SelectedGPUGroups)
 				pod.Annotations["received-resource-type"] = br.Spec.ReceivedResourceType
 				for _, g := range br.Spec.SelectedGPUGroups {
